@@ -504,6 +504,10 @@ func parentMain(args []string) int {
 	knownPrinted := map[string]bool{}
 	nviol := 0
 	repDir := filepath.Join(Root, "replays", p.ID)
+	noEvidence := os.Getenv("VERIF_NO_EVIDENCE") != ""
+	if noEvidence {
+		repDir = filepath.Join(Root, ".build", "replays-scratch", p.ID)
+	}
 	if *only == "" {
 		old, _ := filepath.Glob(filepath.Join(repDir, "*.json"))
 		for _, o := range old {
@@ -573,7 +577,7 @@ func parentMain(args []string) int {
 	}
 
 	wall := time.Since(t0).Seconds()
-	if *only == "" {
+	if *only == "" && !noEvidence {
 		writeEvidence(p, *tier, *seed, agg, nviol, len(knownPrinted), wall, race, raceReports, n)
 	}
 
